@@ -990,15 +990,12 @@ fn judge(ctx: &mut Ctx, case: &Case, witness_mode: bool) -> Outcome {
             let expected = expected_survivors(rule, &lbase.comment_bytes());
             let fails = oracle(ctx, case, &base, &out, Some(&expected));
             o.oracle_fails = fails.iter().map(|f| f.0.clone()).collect();
-            // F26: in a CRLF file darklua matches `except` against the comment text *with* the CR
+            // (F26 is fixed: `except` patterns see the comment text without the CR of a CRLF line end;
+            //  the cases where the CR would change the verdict are counted to show they are exercised)
             let with_cr: Vec<Vec<u8>> = lbase.comment_bytes().iter().map(|c| [c.as_slice(), b"\r"].concat()).collect();
             let crlf_sensitive = src.contains("\r\n")
                 && expected_survivors(rule, &with_cr).iter().map(|c| c[..c.len() - 1].to_vec()).collect::<Vec<_>>() != expected;
-            if crlf_sensitive {
-                o.hist("remove_region", "CRLF file and a pattern that sees the CR (F26)");
-            } else {
-                o.hist("remove_region", "inside");
-            }
+            o.hist("remove_crlf", if crlf_sensitive { "CRLF file and a pattern whose verdict would change with the CR" } else { "other" });
             let spaces = rule.has_spaces();
             let f27 = spaces && (f27_trigger(&lbase) || f29_trigger(&lbase) || f30_trigger(&lbase));
             if spaces {
@@ -1019,10 +1016,6 @@ fn judge(ctx: &mut Ctx, case: &Case, witness_mode: bool) -> Outcome {
                 for (name, what) in &fails {
                     if f27 {
                         o.count("oracle_fails_in_F27_F29_F30_region");
-                        continue;
-                    }
-                    if crlf_sensitive && name == "O3" {
-                        o.count("oracle_fails_in_F26_region");
                         continue;
                     }
                     o.violate("oracle", &format!("remove_{}", name), what.clone(), case, true);
@@ -1398,12 +1391,13 @@ fn gen_rule(rng: &mut Rng, crlf: bool) -> Rule {
         0 => Rule::Spaces,
         1 => Rule::Comments { lits: vec![], regexes: vec![] },
         2 | 3 | 4 => {
-            let pool: Vec<Lit> = lit_pool().into_iter().filter(|l| !(crlf && l.1)).collect();
+            let _ = crlf;
+            let pool: Vec<Lit> = lit_pool();
             let n = 1 + rng.below(3);
             Rule::Comments { lits: (0..n).map(|_| rng.pick(&pool).clone()).collect(), regexes: vec![] }
         }
         _ => {
-            let pool: Vec<&str> = REGEX_POOL.iter().cloned().filter(|r| !(crlf && r.ends_with('$'))).collect();
+            let pool: Vec<&str> = REGEX_POOL.to_vec();
             let n = 1 + rng.below(2);
             Rule::Comments { lits: vec![], regexes: (0..n).map(|_| rng.pick(&pool).to_string()).collect() }
         }
